@@ -751,6 +751,30 @@ func (fr *Frame) evalCall(e *CExpr, env *Env, hint *Sort) *GVal {
 			return tv(App("stdin.bytes", bs.S))
 		}
 		return tv(App("stdin.ok", SBool))
+	case "goField", "goHasField", "goFieldUnexported":
+		ex.p.DeclareFun("goField", []*Sort{SVal, SStr}, SVal)
+		ex.p.DeclareFun("goHasField", []*Sort{SVal, SStr}, SBool)
+		ex.p.DeclareFun("goFieldUnexported", []*Sort{SVal, SStr}, SBool)
+		rs := SBool
+		if e.Name == "goField" {
+			rs = SVal
+		}
+		return tv(App(e.Name, rs, arg(0, SVal), arg(1, SStr)))
+	case "goElem":
+		ex.p.DeclareFun("goElem", []*Sort{SVal}, SVal)
+		return tv(App("goElem", SVal, arg(0, SVal)))
+	case "goIsNil":
+		ex.p.DeclareFun("goIsNil", []*Sort{SVal}, SBool)
+		return tv(App("goIsNil", SBool, arg(0, SVal)))
+	case "capitalised":
+		// the key with its first code point upper-cased: string(unicode.ToUpper(first)) + key[width:]
+		k := arg(0, SStr)
+		ex.p.DeclareFun("utf8.rune", []*Sort{SStr}, SBV32)
+		ex.p.DeclareFun("utf8.width", []*Sort{SStr}, SInt)
+		ex.p.DeclareFun("unicode.upper", []*Sort{SBV32}, SBV32)
+		first := App("gs.fromRune", SStr, App("unicode.upper", SBV32, App("utf8.rune", SBV32, k)))
+		rest := App("gs.sub", SStr, k, App("utf8.width", SInt, k), App("gs.len", SInt, k))
+		return tv(App("gs.cat", SStr, first, rest))
 	case "goLen", "goDepth":
 		ex.p.DeclareFun(e.Name, []*Sort{SVal}, SInt)
 		return tv(App(e.Name, SInt, arg(0, SVal)))
